@@ -681,7 +681,11 @@ func workerC14(cfg WorkerCfg) int {
 				Key:    key,
 				Detail: detail,
 				Seed:   cfg.Seed, Index: idx,
-				Replay: mustJSON(map[string]interface{}{"engine": "ordersim", "property": "C14", "build": "plain", "seed": cfg.Seed, "case": min, "diff": diff, "datum_canon": clip(Canon(Build(min.Datum), false), 2000)})})
+				Replay: mustJSON(map[string]interface{}{"engine": "ordersim", "property": "C14", "build": "plain", "seed": cfg.Seed, "case": min, "diff": diff, "datum_canon": clip(Canon(Build(min.Datum), false), 2000),
+					// the seeded slice of cases this worker process had executed when it found the
+					// difference: a second way to replay it when the difference depends on what
+					// the process did before (state the library keeps per process)
+					"process_slice": map[string]interface{}{"from": cfg.From, "stride": cfg.Stride, "index": idx, "tier": cfg.Tier}})})
 		}
 	}
 	// Sentinels come in two option variants of the same expression text (with and
